@@ -1,7 +1,7 @@
 (* GoSizeProofs.v — the syntax tree of validInputSize extracted from /repo computes the model. *)
 From Coq Require Import String.
 From PGV Require Import Base.Bytes Base.GoStr Base.GoNum Base.Utf8 Base.MiniGo.
-From PGV Require Import Model.RuleText Model.Value Model.Clause Model.Rules Model.GoSize Extracted.SourceFns.
+From PGV Require Import Model.RuleText Model.Value Model.Clause Model.Rules Model.GoSize Extracted.SourceFnsSize.
 Open Scope Z_scope.
 
 Lemma wrap64_small z : 0 <= z -> in_int64 z = true -> wrap64 z = z.
